@@ -468,6 +468,84 @@ def h_history(ctx, n, prefix=(), real_noise=False, extra=()):
     return obs
 
 
+def h_keepalive_thread(ctx, ticks):
+    """the keep-alive's REAL thread body running on its own thread across several periods (its sleep is a gate the harness opens once per
+    period): every period's ping is answered or not (solver's choice); the connection is closed exactly when a ping is still unanswered
+    at the time the next one is due"""
+    import threading
+    st, w, net, disp, app, iq, iqmod = build(False)
+    N = SC.N()
+    app.connect()
+    disp.state = "up"
+    net.onConnected()
+    run_loop(st)
+    net.receive(N("success", {"t": "1400000000", "props": "4", "creation": "1300000000", "expiration": "1500000000", "kind": "free", "status": "active"}, None, b"x"))
+    run_loop(st)
+    th = w.ping_thread
+    obs = [("the keep-alive is started by the successful login", th is not None)]
+    if th is None:
+        return obs
+    idle, gate = threading.Event(), threading.Semaphore(0)
+    stop = {"now": False}
+
+    class GatedTime(object):
+        @staticmethod
+        def sleep(x):
+            idle.set()
+            gate.acquire()
+            if stop["now"]:
+                raise _StopTick()
+
+        def __getattr__(self, n):
+            import time as _t
+            return getattr(_t, n)
+    old = iqmod.time
+    iqmod.time = GatedTime()
+
+    def body():
+        try:
+            th.run()
+        except _StopTick:
+            pass
+    t = threading.Thread(target=body, daemon=True)
+    outstanding, closed_at = [], None
+    try:
+        t.start()
+        idle.wait(5)
+        for k in range(ticks):
+            answered = ctx.flag("ping%d_answered" % k)
+            n_sent, mark = len(w.sent_nodes), len(w.log)
+            idle.clear()
+            gate.release()                     # one period passes
+            for _ in range(500):
+                if idle.is_set() or not t.is_alive():
+                    break
+                t.join(0.01)
+            run_loop(st)
+            pings = [hooks.dict_get(x.attributes, "id") for x in w.sent_nodes[n_sent:] if getattr(x, "tag", None) == "iq" and hooks.dict_get(x.attributes, "xmlns") == "w:p"]
+            closed = "dispatcher.disconnect" in w.log[mark:]
+            due_with_unanswered = len(outstanding) >= 1
+            obs.append(("period %d: the connection is closed iff the previous ping is still unanswered now that the next one is due (unanswered: %d, closed: %s)" % (k, len(outstanding), closed),
+                        closed == due_with_unanswered))
+            if closed or due_with_unanswered:
+                closed_at = k
+                break
+            obs.append(("period %d: exactly one ping leaves" % k, len(pings) == 1))
+            outstanding = pings[-1:]
+            if answered and outstanding:
+                net.receive(N("iq", {"id": outstanding[0], "type": "result", "from": "s.whatsapp.net"}))
+                run_loop(st)
+                outstanding = []
+    finally:
+        stop["now"] = True
+        for _ in range(4):
+            gate.release()
+        t.join(3)
+        iqmod.time = old
+    obs.append(("the keep-alive thread ends with the connection / the harness (%s)" % ("alive" if t.is_alive() else "ended"), not t.is_alive()))
+    return obs
+
+
 NET_EVENTS = ("connect-request", "connect-refused-at-once", "connect-completes", "connect-fails", "send", "writable", "incoming", "incoming-handler-raises",
               "peer-close", "disconnect-request")
 
@@ -591,6 +669,7 @@ def h_network(ctx, n, prefix=()):
                 obs.append((tag + ": no spurious connected announcement", ups == 0))
             if ev in ("incoming-handler-raises", "peer-close", "disconnect-request", "connect-fails"):
                 obs.append((tag + (": announced down exactly once" if was_up else ": at most one down announcement for a failed attempt"), downs == 1 if was_up else downs <= 1))
+                obs.append((tag + ": the socket of the connection (or attempt) that ended is closed", sock is not None and sock.closed))
                 g.update(up=False, pending=False)
             elif ev != "connect-refused-at-once":
                 obs.append((tag + ": no spurious disconnected announcement", downs == 0))
@@ -745,6 +824,7 @@ def cases(tier):
     cs.append(dict(name="history+[prefix=up+success+ping-tick+peer-close+up+success,foreign pongs,len<=%d]" % (10 if q else 12), fn=h_history,
                    args=(10 if q else 12, up + ("success", "ping-tick", "peer-close") + up + ("success",), False, ("app-ping", "app-pong", "stale-pong")),
                    max_paths=2000000, timeout_s=900 if q else 3400, keep_samples=8, weight=150))
+    cs.append(dict(name="keepalive[real thread body over %d periods]" % (3 if q else 4), fn=h_keepalive_thread, args=(3 if q else 4,), keep_samples=16, timeout_s=300))
     # the real network layer and asyncore dispatcher over a socket double
     nup = ("connect-request", "connect-completes")
     cs.append(dict(name="network[asyncore dispatcher,len<=%d]" % (4 if q else 5), fn=h_network, args=(4 if q else 5,), max_paths=2000000, timeout_s=900 if q else 3400, keep_samples=8, weight=100))
